@@ -11,6 +11,19 @@ ID = "C01"
 PROPS_FILE = "Props/C01.v"
 COQ_TARGETS = ["Harness/H01.vo"]
 ALLOWED_AXIOMS = []
+# second tie (translator): coq/Gen/Core.v is regenerated from the source text of C.REPO on every run and
+# coq/Tie/T01.v proves generated definition = hand model (harness/translate/py2coq_core.py)
+EXTRA_PROPS = ["Tie/T01.v"]
+
+
+def prebuild(ctx):
+    import os
+    import sys
+    sys.path.insert(0, os.path.join(C.VERIF, "harness", "translate"))
+    import py2coq_core
+    py2coq_core.prebuild(ctx, C, ["Problem.__call__"])
+
+
 META = {
     "level_text": "Machine-checked proof (Coq) about an executable model of Problem.__call__, Solution.__deepcopy__ and "
                   "Algorithm.evaluate_all (for ANY user function, ANY constraint functions, ANY evaluator that returns jobs in "
